@@ -62,7 +62,9 @@ func genC07(t *rapid.T, tier string) (*World, any) {
 		// references to names later in the order (chains, diamonds)
 		for j := i + 1; j < len(names); j++ {
 			if (deep && j == i+1) || (!deep && chance(t, 35, "defref")) {
-				if drawBool(t, "defref-front") {
+				if chance(t, 20, "defref-twice") {
+					v = "{{" + names[j] + "}}" + v + "{{" + names[j] + "}}"
+				} else if drawBool(t, "defref-front") {
 					v = "{{" + names[j] + "}}" + v
 				} else {
 					v = v + "{{" + names[j] + "}}"
